@@ -22,7 +22,8 @@ SPEC = {
         "binary search is modelled as 'the entry with that key')",
         "pen convention for right-to-left runs: the pen moves left by the glyph's advance before the glyph is drawn "
         "(equivalently the run is reversed and drawn left to right)",
-        "i32 position arithmetic does not overflow (operands are sums of at most |run| 17-bit quantities)",
+        "i32 position arithmetic of glyph_positions does not overflow (operands are sums of at most |run| 17-bit "
+        "quantities; the accumulations of gpos::apply themselves saturate and need no assumption)",
     ],
     "rule": "random abstract GPOS programs: 1-5 lookups of types 1-8 (SinglePos 1/2, PairPos 1/2 with class matrices, "
             "CursivePos, MarkBasePos, MarkLigPos, MarkMarkPos, Context 1/3, ChainContext 1/3 with nested records), value "
